@@ -335,6 +335,51 @@ func c18AfterRefused(c *Ctx) {
 	}
 }
 
+// c18SameChecksum: two statements whose conditions differ in one tag value,
+// chosen so that the condition texts (bare and in parentheses, which is how
+// they are carried into the new condition) have the same length and 32-bit
+// checksum; the same window is applied to one and then to the other.
+func c18SameChecksum(c *Ctx) {
+	r := c.R
+	w0, w1 := time.Unix(0, 1577836800000000000).UTC(), time.Unix(0, 1577840400000000000).UTC()
+	for ki, kind := range mon.SumKinds {
+		for fi, head := range []string{"host = 'srv", "(host = 'srv"} {
+			a, b, ok := mon.Collide(kind, func(i int) string {
+				return head + mon.Word(uint64(c.Seed)+uint64(ki*2+fi), i, 7, "0123456789abcdef")
+			}, 1<<20)
+			if !ok {
+				continue
+			}
+			va, vb := a[len(head):], b[len(head):]
+			for _, v := range []string{va, vb, va} {
+				text := "SELECT mean(v) FROM cpu WHERE host = 'srv" + v + "' GROUP BY time(1m)"
+				st, err := influxql.ParseStatement(text)
+				if err != nil {
+					continue
+				}
+				sel := st.(*influxql.SelectStatement)
+				var serr error
+				if p, pv, stk := mon.Try(func() {
+					serr = sel.SetTimeRange(w0, w1)
+					serr = sel.SetTimeRange(w0.Add(time.Hour), w1.Add(time.Hour))
+					serr = sel.SetTimeRange(w0, w1)
+				}); p {
+					r.Violation("panic-in-SetTimeRange", map[string]interface{}{"idx": -1, "input": text, "why": fmt.Sprint(pv), "stack": stk})
+					return
+				}
+				r.Eval(1)
+				resid, tr, cerr := influxql.ConditionExpr(sel.Condition, nil)
+				want := "host = 'srv" + v + "'"
+				if serr != nil || cerr != nil || resid == nil || resid.String() != want || tr.MinTimeNano() != w0.UnixNano() || tr.MaxTimeNano() != w1.UnixNano()-1 {
+					r.Violation("window-not-applied-exactly", map[string]interface{}{"idx": -1, "input": text, "why": fmt.Sprintf("after SetTimeRange the condition is %q (errors %v %v); it must keep the predicate %s and select [%v, %v)", trunc(fmt.Sprint(sel.Condition), 300), serr, cerr, want, w0, w1)})
+					return
+				}
+				r.Count("same-checksum.statements", 1)
+			}
+		}
+	}
+}
+
 func checkC18(c *Ctx) (string, bool, []string) {
 	r := c.R
 	rule := "initial conditions: none, conjunctions of 0-3 time bounds (time on either side, any letter case, quoted, with a ::type cast, integer / RFC3339 / date / date-time / duration / now()-relative) with 0-3 other sub-trees (AND, OR, parentheses), or a top-level OR of non-time predicates; sequences of 1-8 windows (passed as time values in UTC, named zones and zones whose offset has seconds; ascending continuous-query style incl. 1ns and 250ms buckets, random, repeated, empty and sub-second, at the representable extremes). A third of the statements carry a TZ clause and are observed alternately without a valuer and with a valuer reporting the statement zone. After every SetTimeRange the statement is observed through ConditionExpr: exact range, exactly two time comparisons, constant node count from the first call on, and agreement with (start <= t < end) AND non-time-part on every probe point. Non-trivial = history of at least one call; distinct by (statement, windows)."
@@ -345,6 +390,7 @@ func checkC18(c *Ctx) (string, bool, []string) {
 	}
 	n := c.N(10000, 500000)
 	c18AfterRefused(c)
+	c18SameChecksum(c)
 	mon.Parallel(n, c.Workers, func(i int) {
 		local := map[string]int64{}
 		c18One(c, i, local)
